@@ -21,9 +21,9 @@ METHODS = ("collect", "next", "fast_forward", "nexts")
 
 def main(tier):
     rep = common.Report(PID, tier)
-    n = 250 if tier == "quick" else 4000
+    n = 600 if tier == "quick" else 5000
     seed = common.seed() + 700
-    items = [(seed, i, ("core", "control", "validity", "rewrite"), METHODS, {}) for i in range(n)]
+    items = [(seed, i, ("core", "control", "validity", "rewrite"), METHODS, {"ragged_collect": True}) for i in range(n)]
     results = common.pmap(runfam._work, items, initializer=scratch.enter_scratch)
     cases, infos, all_traces, oom = [], {}, [], 0
     for idx, lst in enumerate(results):
@@ -55,7 +55,7 @@ def main(tier):
         cases.append(samerun.case(idx, base[0], others))
         infos[idx] = {"csvpath": base[1]["csvpath"], "file_records": base[1]["records"],
                       "runs": [("collect(nexts=%d)" % r["cfg"]["nexts"]) if (m == "collect" and r["cfg"]["nexts"]) else m for r, _, m in recs]}
-        all_traces += [r for r, _, _ in recs]
+        all_traces += [r for r, i_, _ in recs if not i_.get("ragged_collect")]   # the run machine does not model a failing hand-over
     res, verdicts = samerun.validate(cases)
     rep.add_tlc("SameRun: next(), fast_forward() and collect(nexts=n) against collect()", res)
     for c in cases:
